@@ -63,3 +63,9 @@ CLAIMS["C10"] = (
     "Abstract mode (opaque ArchiveFile objects with stable attributes). archiveinfo()/get_methods_names are not under contract yet where absent from the evidence; known findings about them are listed in known_findings.json.",
     "DESIGN.md 7 (C10)",
 )
+
+CLAIMS["C19"] = (
+    "Volume-size grammar proved for every string: a size matching the documented pattern (digits, optional unit b/k/m/g in either case, unit optional) converts without exception to number x unit factor (the factors of the help text), everything else is rejected; exit-status guards proved on every path of run_test/run_extract: status 0 only after is_7zfile, opening and testzip()/extractall() completed without an exception and testzip() found nothing; every handled exception yields a non-zero status.",
+    "`re` on the literal pattern and int() of ASCII digits are assumed contracts; the behaviour of c/x/l/a themselves is the library's (C02, C08, C10) and is not re-proved; run_create/run_append/_run_list are outside the contracts unless listed in the evidence.",
+    "DESIGN.md 7 (C19)",
+)
